@@ -4,6 +4,8 @@ mod oracle;
 mod prng;
 mod run;
 mod scen;
+mod spaces;
+mod spmain;
 mod table;
 mod wrap;
 
@@ -313,6 +315,7 @@ fn main() {
     let cmd = args.get(1).map(|s| s.as_str()).unwrap_or("");
     match cmd {
         "planners" => planners(&args),
+        "spaces" => spmain::main(&args),
         _ => {
             eprintln!("usage: oxh planners --seed S --families table:100,rv:10 --out DIR [--only-planner rrt|rrtstar|rrtconnect|prm] [--faults] [--misuse] [--per-iteration] [--case ID]");
             std::process::exit(2);
